@@ -284,3 +284,6 @@ _add("C13", "Proved in addition: UnitRegistry(lut=...) copies the caller's table
 _add("C17", "Mixed-unit arithmetic: the commensurable ufunc contracts (add, subtract, maximum ..., comparisons) carry C17's "
             "dtype clauses: the result of a rescaling operation is floating point or complex, and no operand is cast from a "
             "complex to a real dtype on the way (ghost event of the cast model).")
+_add("C11", "Unit.copy() is proved to return another Unit with the same expression, scale, zero point and dimension bound "
+            "to the same registry object, whatever the registry's memo holds (found and repaired: the copy of a unit created "
+            "before a registry edit came back as the memoised unit of the current table).")
